@@ -29,6 +29,8 @@ def err_class(e):
 def impl_call(fn):
     try:
         return {"ok": fn()}
+    except TooCostly:
+        raise
     except Exception as e:  # noqa
         return {"err": err_class(e)}
 
@@ -199,10 +201,11 @@ def enc_cmp(c):
     if isinstance(c, ModelFieldsEquals):
         return ["exact"]
     if isinstance(c, ModelFieldsPercentMatch):
-        n, d = float(c.percent_fields).as_integer_ratio()
-        if n < 0:
-            n = 0
-        return ["percent", n, d]
+        # the threshold as the decimal fraction it denotes (0.8 -> 4/5): correctly rounded float division compared
+        # with the correctly rounded threshold agrees with exact comparison against that decimal (DESIGN §9 T4)
+        from fractions import Fraction
+        f = Fraction(repr(float(c.percent_fields)))
+        return ["percent", max(f.numerator, 0), f.denominator]
     if isinstance(c, ModelFieldsNumberMatch):
         return ["number", max(0, int(c.number_fields))]
     raise TypeError(c)
@@ -263,6 +266,8 @@ def run_pipeline_impl(inputs, registry, cmps, dict_fields=(), dict_regex=()):
         reg.process_meta_data(meta, name)
     out["process"] = enc_graph(reg)
     out["cost"] = closure_cost(reg)
+    if out["cost"] > 80:
+        raise TooCostly()          # the implementation's own grouping loop needs seconds here: not explored
     repl = reg.merge_models(gen)
     out["merge"] = enc_graph(reg)
     out["replaces"] = [[m.index, sorted(x.index for x in grp)] for m, grp in repl]
@@ -290,6 +295,10 @@ def proj_pipeline(r):
     n = r["nested"]
     out["nested"] = n if isinstance(n, dict) else [n[0], sorted(n[1])]
     return out
+
+
+class TooCostly(Exception):
+    pass
 
 
 def closure_cost(reg, limit=80):
@@ -339,10 +348,13 @@ def stage_pipeline(batch, inputs, registry, cmps, dict_fields=(), dict_regex=(),
     def run():
         return run_pipeline_impl(inputs, registry, cmps, dict_fields, dict_regex)[0]
 
-    ans = impl_call(run)
-    if "ok" in ans and ans["ok"].pop("cost") > 80:
+    try:
+        ans = impl_call(run)
+    except TooCostly:
         batch.skipped_cost += 1
-        return ans
+        return {"skipped": "cost"}
+    if "ok" in ans:
+        ans["ok"].pop("cost")
     req = {"op": "pipeline", "cfg": cfg, "orc": orc, "cmps": enc_cmps(cmps),
            "in": [[n, [conv.enc_json(s) for s in ss]] for n, ss in inputs]}
     batch.add(req, ans, {"inputs": inputs, "project": "pipeline", "parts": parts, "cmps": enc_cmps(cmps)})
@@ -450,6 +462,8 @@ def build_registry(inputs, registry, cmps, dict_fields=(), dict_regex=()):
     reg = _TableRegistry(*cmps)
     for name, samples in inputs:
         reg.process_meta_data(gen.generate(*copy.deepcopy(samples)), name)
+    if closure_cost(reg) > 80:
+        raise TooCostly()
     reg.merge_models(gen)
     reg.generate_names()
     return reg, gen
